@@ -177,7 +177,10 @@ def directed_recipes(seed, tier: str = "quick") -> list:
       * "b264": every visor header has a non-NUL byte right behind the 7-byte magic (blank / '0' / 0x01 / 0xFF / newline / '/' /
         a different one per member, NUL included) -- visor and mixed archives, plain and gzip-wrapped, each with a non-empty visor
         file in the data area that is followed by further headers;
-      * "near": the standard (inline) members of a mixed archive carry magic fields that are almost, but not, the visor magic."""
+      * "near": the standard (inline) members of a mixed archive carry magic fields that are almost, but not, the visor magic;
+      * "tar-content" / "tail-tar": what lies behind the end-of-archive marker looks like tar headers itself -- a data-area member
+        whose content is a tar archive at a block-aligned position, a second archive behind the first (concatenated archives): the
+        listing ends at the marker, the inner headers are content / trailing bytes."""
     rng = random.Random(f"gen_vmtar/directed/{seed}/{tier}")
     out = []
 
@@ -208,6 +211,35 @@ def directed_recipes(seed, tier: str = "quick") -> list:
                     m["magic"] = "raw:" + NEAR_MAGICS[(k * 5 + j) % len(NEAR_MAGICS)].hex()
                     j += 1
             r["directed"] = ["near", k]
+            out.append(r)
+        # tar-like bytes behind the end-of-archive marker: a data-area member whose CONTENT is a tar archive (block-aligned, as vmtar
+        # places data; inner names equal to outer ones or new), and a second archive appended behind the first one (visor, mixed, plain)
+        k = 0
+        for flavor in ("visor", "mixed"):
+            for gz in (False, True):
+                for same in (True, False):
+                    cand = []
+                    while not cand:
+                        r = draw(flavor=flavor, n=rng.choice([2, 3, 5, 8]), gz=gz)
+                        ms = r["members"]
+                        cand = [i for i in r["area"] if ms[i]["type"] == "file" and ms[i]["size"] > 0 and not any(t.get("alias", [None])[0] == i for t in ms)]
+                    r["align"], r["eof"] = rng.choice([512, 4096]), rng.choice([1, 2, 2, 3])
+                    for i in cand[: rng.choice([1, 2])]:
+                        names = [member_name(rng.choice(ms))[:100] if same else _path(rng, rng.choice([3, 12, 40])), _path(rng, 9)][: rng.choice([1, 2])]
+                        ms[i]["tar"] = [[nm, rng.choice([0, 1, 511, 512, 700]), rng.randrange(256)] for nm in names]
+                        ms[i]["size"] = len(inner_tar(ms[i]["tar"]))
+                    r["directed"] = ["tar-content", k]
+                    k += 1
+                    out.append(r)
+        for flavor, gz in (("plain", False), ("plain", True), ("plain", False), ("visor", False), ("mixed", True)):
+            for _ in range(200):
+                r = gen_recipe(rng, tier, huge=0, flavor=flavor, n=rng.choice([1, 2, 4, 7]), gz=gz)
+                if not any(m.get("edge") for m in r["members"]) and any(m["type"] == "file" and m["size"] > 0 for m in r["members"]):
+                    break
+            r["eof"] = rng.choice([1, 2, 2, 3])
+            r["tailtar"] = [[member_name(rng.choice(r["members"]))[:100] if j == 0 and rng.random() < 0.5 else _path(rng, rng.choice([4, 20])), rng.choice([0, 5, 512, 900]),
+                             rng.randrange(256)] for j in range(rng.choice([1, 2, 3]))]
+            r["directed"] = ["tail-tar", flavor]
             out.append(r)
     return out
 
@@ -257,6 +289,23 @@ def _header(name: bytes, m: dict, size: int, tf: bytes, link: bytes = b"", prefi
     return bytes(h)
 
 
+def inner_tar(items) -> bytes:
+    """a complete little ustar archive, [[name, size, seed], ...] -> header + data blocks ... + two zero blocks: used as member CONTENT
+    (member knob "tar") and as trailing bytes behind the outer archive (recipe knob "tailtar"); for the outer archive it is just bytes"""
+    out = bytearray()
+    for name, size, seed in items:
+        im = {"magic": "ustar", "mode": 0o644, "uid": 0, "gid": 0, "mtime": 1700000000 + seed, "uname": "root", "gname": "root", "nst": 0, "cst": 0, "dev": False}
+        out += _header(name.encode()[:100], im, size, b"0") + pat_bytes(seed, 0, size) + bytes(-size % BS)
+    return bytes(out) + bytes(2 * BS)
+
+
+def _put_content(im: Image, pos: int, m: dict):
+    if m.get("tar"):
+        im.put_hex(pos, inner_tar(m["tar"]))
+    else:
+        im.put_pat(pos, m["size"], m["seed"])
+
+
 def member_name(m: dict) -> str:
     return (m["pre"] + "/" + m["base"]) if m["pre"] else m["base"]
 
@@ -280,7 +329,7 @@ def build(recipe: dict) -> dict:
         pos += BS
         if m["place"] == "inline":
             inl[i] = pos
-            im.put_pat(pos, m["size"], m["seed"])
+            _put_content(im, pos, m)
             if recipe["padgarbage"]:
                 im.put_pat(pos + m["size"], _blk(m["size"]) - m["size"], m["seed"] + 101)
             pos += _blk(m["size"])
@@ -296,8 +345,13 @@ def build(recipe: dict) -> dict:
         if recipe["garbage"] and start >= zero_end and pos - start < (1 << 20):
             im.put_pat(start, pos - start, recipe["gseed"] + k)
         aoff[i] = pos
-        im.put_pat(pos, ms[i]["size"], ms[i]["seed"])
+        _put_content(im, pos, ms[i])
         pos += ms[i]["size"]
+    if recipe.get("tailtar"):                                   # bytes behind the archive that happen to be a tar archive themselves
+        pos = _blk(pos)
+        blob = inner_tar(recipe["tailtar"])
+        im.put_hex(pos, blob)
+        pos += len(blob)
     end = (pos + recipe["tail"] + recipe["tailalign"] - 1) // recipe["tailalign"] * recipe["tailalign"]
     if recipe["tailgarbage"]:                                   # trailing bytes after the marker / data area are never parsed
         im.put_pat(pos, end - pos, recipe["gseed"] + 77)
@@ -316,6 +370,9 @@ def build(recipe: dict) -> dict:
         if m["type"] == "file":
             src = ms[m["alias"][0]] if m["place"] == "alias" else m
             content = pat_bytes(src["seed"], data_at, size) if size else b""
+            if src.get("tar"):                                  # content written as explicit bytes (an archive inside the archive)
+                d = m["alias"][1] if m["place"] == "alias" else 0
+                content = inner_tar(src["tar"])[d: d + size]
         assert 0 <= vis_off < (1 << 32) and (vis_off != 0) == (m["place"] in ("area", "alias"))
         pgs = m.get("pgs", [0, 0, 0])
         full = member_name(m).encode()
